@@ -45,6 +45,12 @@ Verdict(c) ==
      ELSE IF StructClause(c.rb, c.obs) # "ok" THEN StructClause(c.rb, c.obs)
      ELSE IF PtVShape(c.st) # c.obs.shape \/ ~SeqClose(PtDense(c.st), c.obs.flat) THEN "ConstructionPreservesDenotation"
      ELSE "ok"
+  ELSE IF c.kind = "dense_exact" THEN
+     \* a construction in double precision from values that doubles hold exactly to 1/1000: no tolerance
+     IF c.out # "ok" THEN "Raised"
+     ELSE IF PtWFClause(c.rb) # "ok" THEN PtWFClause(c.rb)
+     ELSE IF PtVShape(c.st) # c.obs.shape \/ PtDense(c.st) # c.obs.flat \/ PtDense(c.rb) # c.obs.flat THEN "ConstructionPreservesDenotation"
+     ELSE "ok"
   ELSE IF c.kind = "op" THEN
      IF c.out # "ok" THEN (IF c.mayraise THEN "ok" ELSE "Raised")
      ELSE IF c.obs.shape # c.exp.shape THEN "ResultShape"
